@@ -54,7 +54,9 @@ class Family(object):
     self.preamble = preamble
 
 
-class ImplTimeout(Exception):
+class ImplTimeout(BaseException):
+  """Not an Exception subclass: observers that catch Exception (to record the implementation's error type)
+  must not swallow the watchdog."""
   pass
 
 
@@ -65,13 +67,13 @@ def _alarm(signum, frame):
 def run_with_timeout(fn, arg, secs):
   """Runs the implementation on one case; an endless loop becomes an observation."""
   old = signal.signal(signal.SIGALRM, _alarm)
-  signal.alarm(secs)
+  signal.setitimer(signal.ITIMER_REAL, secs, 1.0)   # fires again every second should a bare except swallow it
   try:
     return fn(arg)
   except ImplTimeout:
     return {"raise": "Timeout"}
   finally:
-    signal.alarm(0)
+    signal.setitimer(signal.ITIMER_REAL, 0)
     signal.signal(signal.SIGALRM, old)
 
 
@@ -236,9 +238,14 @@ class Checker(object):
     """Runs the implementation on every case, lets Coq evaluate corr/holds."""
     os.makedirs(self.bdir, exist_ok=True)
     obs = []
+    ntimeouts = 0
     for c in cases:
       try:
-        o = run_with_timeout(fam.run, c, fam.timeout)
+        # a hanging implementation must not stall the whole check: after three watchdog hits the
+        # remaining cases of the family get one second each
+        o = run_with_timeout(fam.run, c, fam.timeout if ntimeouts < 3 else 1)
+        if isinstance(o, dict) and o.get("raise") == "Timeout":
+          ntimeouts += 1
       except Exception as e:  # harness bug or an exception the observer does not classify
         o = {"raise": type(e).__name__, "harness_msg": str(e)[:200]}
       obs.append(o)
